@@ -380,8 +380,8 @@ class IOSoftware(Software, ABC):
                     payload={"type": "disconnect", "connection_id": connection_id},
                     session_id=connection_dict["session_id"],
                 )
-                self.sys_log.info(f"{self.name}: Connection {connection_id=} terminated")
-                return True
+            self.sys_log.info(f"{self.name}: Connection {connection_id=} terminated")
+            return True
         return False
 
     def show_connections(self, markdown: bool = False):
